@@ -7,6 +7,7 @@ RULE = ("All byte strings of length <= 2 through every encoder (exhaustive, chun
         "unpadded), on 10 malformed variants each (extra/missing/misplaced padding, CR/LF, space, NUL), and with the character at the first/"
         "middle/last position replaced by each of the 256 byte values (accepted set must be exactly the reference's); size guards at 0, 1, "
         "MAX-8, MAX, MAX+1, MAX+8. Non-trivial = a C13 predicate's antecedent held.")
+RULE += (' Size guards with CR/LF at the limit; decoded results kept while other strings are decoded (Chain).')
 ASSUME = [common.TRUSTED, "trailing padding bits of a final character are not required to be zero (RFC 4648 non-strict), as in the reference decoder"]
 META = {
     "level": "model_checking",
